@@ -521,6 +521,57 @@ func sequential() (states int, trans int64, fix bool, samples []any) {
 	return
 }
 
+// sequentialFrom: geometries whose full state space is out of reach (block size >= 2 with 2-3 segments: 2^32 and more
+// header states) are explored to a depth bound from two non-initial states - every block allocated, and the first
+// segment allocated - over {Arrange, Free of the first two blocks of every header byte of every segment}.  This is
+// where a free hint that mixes segment-relative and absolute positions shows (seed C17-L).
+func sequentialFrom() (states int, trans int64, samples []any) {
+	type g struct{ bs, segs, depth int }
+	gs := []g{{2, 2, 4}, {2, 3, 4}}
+	if run.Thorough() {
+		gs = []g{{2, 2, 6}, {2, 3, 5}, {4, 2, 5}, {4, 3, 4}}
+	}
+	for _, ge := range gs {
+		ge := ge
+		count := ge.bs * 8 * ge.segs
+		al := []op{{'A', 0}}
+		for seg := 0; seg < ge.segs; seg++ {
+			for hb := 0; hb < ge.bs; hb++ {
+				base := seg*ge.bs*8 + hb*8
+				al = append(al, op{'F', base}, op{'F', base + 1})
+			}
+		}
+		for _, fill := range []int{count, ge.bs * 8} {
+			fill := fill
+			sp := bfs.Spec[op]{
+				MaxDepth: ge.depth,
+				Run: func(path []op) (string, []op, *bfs.Violation) {
+					s := newSys(ge.bs, ge.segs)
+					for i := 0; i < fill; i++ {
+						if sig, det := s.apply(op{'A', 0}); sig != "" {
+							return "", nil, &bfs.Violation{Sig: sig, Detail: fmt.Sprintf("blockSize=%d segments=%d, filling: %s", ge.bs, ge.segs, det)}
+						}
+					}
+					for _, o := range path {
+						if sig, det := s.apply(o); sig != "" {
+							return "", nil, &bfs.Violation{Sig: sig, Detail: fmt.Sprintf("blockSize=%d segments=%d after %d allocations: %s", ge.bs, ge.segs, fill, det)}
+						}
+					}
+					return s.key(), al, nil
+				},
+			}
+			st, found := bfs.Explore(sp)
+			states += st.States
+			trans += st.Transitions
+			for _, f := range found {
+				run.Violation(f.V.Sig, f.V.Detail+fmt.Sprintf("\nhistory after %d allocations: %v", fill, f.Path), map[string]any{"bs": ge.bs, "segs": ge.segs, "prefill": fill, "ops": fmt.Sprint(f.Path)})
+			}
+			samples = append(samples, fmt.Sprintf("sequential BFS from a non-initial state (blockSize=%d segments=%d, %d blocks allocated first): states=%d transitions=%d depth=%d (bound %d) over %d operations", ge.bs, ge.segs, fill, st.States, st.Transitions, st.Depth, ge.depth, len(al)))
+		}
+	}
+	return
+}
+
 // ---------------------------------------------------------------------------
 // part M: depth-bounded exhaustive sequences over a real memory-mapped file, reopened by path
 
@@ -834,6 +885,8 @@ func main() {
 		t1 := time.Now()
 		pairs := disjoint()
 		st, tr, fix, ss := sequential()
+		st2, tr2, ss2 := sequentialFrom()
+		st, tr, ss = st+st2, tr+tr2, append(ss, ss2...)
 		t2 := time.Now()
 		ms, msam := mmfile()
 		fmt.Printf("C17 parts: geometry %.1fs, disjoint+sequential %.1fs, mmfile %.1fs\n", t1.Sub(t0).Seconds(), t2.Sub(t1).Seconds(), time.Since(t2).Seconds())
@@ -865,7 +918,7 @@ func main() {
 			}
 		}
 	}
-	opt.Rule = "E: every block size in [-2, 2*pagesize+1] x buffer sizes {0, 1, segment-1, segment, segment+1, 2 segments, 2 segments+1} x fit flag: accepted iff valid, else ErrInvalid, never a panic, accepted allocators run a fixed script; all index pairs for block sizes 1,2,4 x 1..3 segments: ranges pairwise disjoint and disjoint from headers. Q: BFS over all histories of {ArrangeBlock, FreeBlock(-1..Count), Block(i)} on tiny geometries to a fixpoint of (header bytes, free hint); after every transition the bytes are copied, a second allocator is opened on the copy and probed. M: all short sequences over a real memory-mapped file reopened by path. S: 2-3 threads x 1-3 ops {Arrange, Free} colliding on the last two free blocks (incl. allocation beyond exhaustion), the recorded call/return history must be linearizable against a sequential allocator (porcupine), every schedule within the preemption bound with points at the mutex, atomics (and statement steps in the thorough tier); crash point (copy + reopen) after every operation of every schedule"
+	opt.Rule = "E: every block size in [-2, 2*pagesize+1] x buffer sizes {0, 1, segment-1, segment, segment+1, 2 segments, 2 segments+1} x fit flag: accepted iff valid, else ErrInvalid, never a panic, accepted allocators run a fixed script; all index pairs for block sizes 1,2,4 x 1..3 segments: ranges pairwise disjoint and disjoint from headers. Q: BFS over all histories of {ArrangeBlock, FreeBlock(-1..Count), Block(i)} on tiny geometries to a fixpoint of (header bytes, free hint); after every transition the bytes are copied, a second allocator is opened on the copy and probed; block sizes 2 and 4 with 2-3 segments (state space out of reach) are searched to a depth bound from two non-initial states (all blocks / the first segment allocated) over Arrange and Free of the first two blocks of every header byte. M: all short sequences over a real memory-mapped file reopened by path. S: 2-3 threads x 1-3 ops {Arrange, Free} colliding on the last two free blocks (incl. allocation beyond exhaustion), the recorded call/return history must be linearizable against a sequential allocator (porcupine), every schedule within the preemption bound with points at the mutex, atomics (and statement steps in the thorough tier); crash point (copy + reopen) after every operation of every schedule"
 	opt.Bounds = map[string]any{"P_two_threads": P, "P_three_threads": 2}
 	sdrv.Main(run, jobs, opt)
 }
